@@ -69,6 +69,11 @@ func registry() map[string]*Rule {
 		{Name: "RNG2", Floor: 2, Run: ruleRNG2, Doc: "specialised on the direction flag, the conditions inside the emission loop of a range scan read only the far bound's Range fields"},
 		{Name: "SORT1", Floor: 0, Run: ruleSORT1, Doc: "abstract evaluation of the document comparator for one and two sort options over every (has, has, sign of Compare, direction): the sign equals the definition; first non-zero option decides"},
 		{Name: "SORT2", Floor: 0, Run: ruleSORT2, Doc: "abstract evaluation of the sort-option normaliser: negative direction -> -1, zero or positive -> +1"},
+		{Name: "WIN1", Floor: 0, Run: ruleWIN1, Doc: "predicate abstraction of the skip/limit node's Callback over (skipped<skip, limit<0, consumed<limit): skip, forward-and-count, or stop exactly as the window [skip, skip+limit) requires; counters start at zero"},
+		{Name: "ADP6", Floor: 2, Run: ruleADP6, Doc: "every store.Tx.Commit implementation returns the backend's synchronous Commit result (no CommitWith / constant nil)"},
+		{Name: "ADP7", Floor: 1, Run: ruleADP7, Doc: "the adapters do not switch off badger conflict detection or bbolt fsync-on-commit"},
+		{Name: "IDX7", Floor: 3, Run: ruleIDX7, Doc: "a function that read the collection's catalog record writes that record back, not a freshly built one"},
+		{Name: "SKIP1", Floor: 0, Run: ruleSKIP1, Doc: "abstract evaluation of Query.Skip: a negative argument stores nothing into the skip field; zero/positive are stored as given"},
 	}
 	m := map[string]*Rule{}
 	for _, r := range rules {
@@ -124,35 +129,35 @@ func propertyTable() map[string]*Property {
 		},
 		"C05": {
 			Technique:   tSSA + "SSA dominance + longest-path transaction counting over the call summaries",
-			Rules:       []string{"TX1", "TX2", "TX3", "IDX1", "IDX3"},
+			Rules:       []string{"TX1", "TX2", "TX3", "IDX1", "IDX3", "ADP6", "ADP7"},
 			Explanation: "Decides the structural fact C05 itself names: every public write operation is exactly one store transaction (TX3), committed as its last action on every success path with every other exit rolling back (TX1, TX2), and documents, index entries, the counter and the catalog are written through that same transaction (IDX1, IDX3 - all writes go through the tx value of the single opener).",
 			NotDecided:  "Durability and crash atomicity of a committed bbolt/badger transaction (trusted base: the stores), fsync options, any actual kill/reopen. No crash is simulated.",
 			Assumptions: commonAssumptions,
 		},
 		"C06": {
 			Technique:   tSSA + "index-maintenance dominance, counter-evidence dataflow, key-template analysis of drop/scan bounds",
-			Rules:       []string{"IDX1", "IDX2", "IDX3", "IDX5", "IDX6", "ID2~probe", "KEY1", "KEY2", "KEY3", "TX2"},
+			Rules:       []string{"IDX1", "IDX2", "IDX3", "IDX5", "IDX6", "IDX7", "ID2~probe", "KEY1", "KEY2", "KEY3", "TX2"},
 			Explanation: "Decides structural clauses of C06: every document write/delete is paired with index maintenance over all catalog indexes (IDX1), with old entries taken before user code can mutate the document (IDX2); the counter moves only with evidence and is written back (IDX3), and each save is behind a probe of its own key inside the write loop, so a batch repeating an id cannot grow the counter twice for one record (ID2); index creation feeds every document into the new index and drop removes through a bound that covers exactly the index's own keys; collection drop goes through the bulk delete and removes the catalog key (IDX5, KEY1-KEY3).",
 			NotDecided:  "The arithmetic equality Count == number of records over arbitrary histories (IDX3 gives the necessary discipline per site, not the sum).",
 			Assumptions: commonAssumptions,
 		},
 		"C07": {
 			Technique:   tSSA + "shared-state inventory (stores to handle fields/globals, go statements), immutability of query values, one-transaction-per-operation counting",
-			Rules:       []string{"TX3", "IMM1", "IMM2", "TX4", "TX1"},
+			Rules:       []string{"TX3", "IMM1", "IMM2", "TX4", "TX1", "ADP6", "ADP7"},
 			Explanation: "Decides structural clauses of C07: each operation is one store transaction, the only atomicity mechanism there is (TX3, TX1); the handle has no unsynchronised mutable state - DB fields are written only at construction or through sync/atomic, no package-level variable is written after init, the only goroutine is the reviewed badger GC loop (IMM2); queries and criteria are immutable values (IMM1); read operations cannot write (TX4).",
 			NotDecided:  "Linearizability of histories, the isolation the stores provide, badger conflict handling, the race detector's verdict: schedules are runtime.",
 			Assumptions: commonAssumptions,
 		},
 		"C08": {
 			Technique:   tSSA + "plan-pipeline type flow, sort-option normalisation dataflow, callback-loop error rules, comparator arithmetic check",
-			Rules:       []string{"PLAN4", "PLAN5", "PLAN7", "SORT1", "SORT2", "ERR3", "CMP2", "CMP1", "KEY5"},
-			Explanation: "Decides structural clauses of C08: the sort node never follows the skip/limit node (PLAN4: the window is cut from the ordered sequence); sort directions are normalised to +-1 and Sort() defaults to a literal (PLAN5), negative to -1 and zero/positive to +1 (SORT2, by abstract evaluation over the sign of the input); the document comparator, abstractly evaluated for one and two sort options over every combination of presence, comparison sign and direction (24 + 576 cases), returns the sign the definition gives: a negative direction reverses the key, the first non-zero key decides (SORT1); a limit stops the emission behind a sort and the stop does not leak (ERR3); the comparator the sort uses has no wrap-around and the documented type ranking (CMP2, CMP1).",
-			NotDecided:  "That windows are exactly [n, n+m), tie handling, multi-key order, correctness of sort elision and of reverse index scans. Narrow claim, stated as such.",
+			Rules:       []string{"PLAN4", "PLAN5", "PLAN7", "SORT1", "SORT2", "WIN1", "SKIP1", "ERR3", "CMP2", "CMP1", "KEY5"},
+			Explanation: "Decides structural clauses of C08: the sort node never follows the skip/limit node (PLAN4: the window is cut from the ordered sequence); sort directions are normalised to +-1 and Sort() defaults to a literal (PLAN5), negative to -1 and zero/positive to +1 (SORT2, by abstract evaluation over the sign of the input); the document comparator, abstractly evaluated for one and two sort options over every combination of presence, comparison sign and direction (24 + 576 cases), returns the sign the definition gives: a negative direction reverses the key, the first non-zero key decides (SORT1); the skip/limit node, by predicate abstraction over (skipped < skip, limit < 0, consumed < limit), skips, forwards-and-counts or stops exactly as the window [skip, skip+limit) requires, with both counters starting at zero (WIN1); a limit stops the emission behind a sort and the stop does not leak (ERR3); the comparator the sort uses has no wrap-around and the documented type ranking (CMP2, CMP1).",
+			NotDecided:  "Tie handling among equal keys, the order an index scan yields (key encoding vs comparator), Count's arithmetic beyond CNT1. The per-document transition of the window node and the comparator's sign ARE decided (WIN1, SORT1).",
 			Assumptions: commonAssumptions,
 		},
 		"C09": {
 			Technique:   tSSA + "immutability dataflow, read-operation transaction rule, callback-loop rules, counter discipline",
-			Rules:       []string{"IMM1", "TX4", "ERR3", "IDX3", "KEY3", "NIL1", "CNT1"},
+			Rules:       []string{"IMM1", "TX4", "ERR3", "IDX3", "IDX7", "KEY3", "NIL1", "CNT1", "SKIP1"},
 			Explanation: "Decides structural clauses of C09: no builder or operation writes to a query/criteria object it was given (IMM1); read operations open read-only transactions or never commit (TX4: they cannot alter the database); ForEach's stop request ends every loop, also behind a sort node (ERR3); the counter Count relies on moves only with evidence (IDX3); FindById reads the key layout Insert writes (KEY3); results of (nil, err) helpers are not dereferenced (NIL1); in the counter shortcut of Count the limit is applied to the size that remains after the skip (CNT1).",
 			NotDecided:  "Numeric agreement of Count's skip/limit arithmetic with a scan; FindFirst = first element of FindAll; these are value-level.",
 			Assumptions: commonAssumptions,
